@@ -283,7 +283,9 @@ def lookup_attribute_facts(ctx, rid):
     if "attribute" in names and a.defaults:
         d = a.defaults[-1]
         default = d.value if isinstance(d, ast.Constant) else None
-    R.check(rid, default == "id", "default lookup attribute of the generic key-value node is the code",
+    # no default at all is as good: every call then names the attribute itself (checked per call site below)
+    has_default = bool(a.defaults) or any(d_ is not None for d_ in a.kw_defaults)
+    R.check(rid, default == "id" or not has_default, "default lookup attribute of the generic key-value node is the code",
             node=fi.node, function=ctx.fq(fi), mod=fi.module, expected="attribute='id'", found=f"default {default!r}")
 
     def lookup_attr_used(qual):
@@ -298,7 +300,7 @@ def lookup_attribute_facts(ctx, rid):
                         args = s.args[2:]  # after func, cls
                         attr = args[1] if len(args) > 1 else Const(default)
                         for kw in args:
-                            if isinstance(kw, App) and kw.op == "kw" and kw.args[0] == Const("attribute"):
+                            if isinstance(kw, App) and kw.op == "kw" and kw.args[0] in [Const("attribute")] + [Const(k_) for k_, v_ in getattr(s.args[0].obj, "kw_alias", {}).items() if v_ == "attribute"]:
                                 attr = kw.args[1]
                         found.add(attr.v if isinstance(attr, Const) else repr(attr))
         return fi, found
